@@ -530,6 +530,8 @@ func runLogin(c loginCase) (f *vh.Failure) {
 	if err != nil {
 		return vh.Failf("C06/login-record", "pack failed for legal field lengths: %v", err)
 	}
+	// an application (or the library's package logging) may print what it is about to send
+	_ = fmt.Sprintf("%s %v", pkg, pkg)
 	out := flatch.New(nil)
 	if err := pkg.WriteTo(out); err != nil {
 		return vh.Failf("C06/login-record", "WriteTo: %v", err)
